@@ -59,6 +59,7 @@ def run(tier, out):
             out.sample({"seed": e["seed"], "driver": e["driver"], "k": e["k"], "changed_inputs": e["changed_inputs"]})
         out.extra.update({"rule": "a case = a pair of real systems differing by one driver x k; distinct by (seed, driver, k)",
                           "pairs_per_driver": per_driver, "pairs_observed_on_one_live_system": n_live,
+                          "simulations_toggled_before_the_driver_was_multiplied": numcheck.SKIPPED.get("simulated_before_scaling", 0),
                           "refused_edits_made_before_the_driver_was_multiplied": numcheck.SKIPPED.get("refused_before_scaling", 0), "pairs_without_any_driven_observation": vac})
         out.assumptions += ["drivers are multiplied on lattice inputs so that both systems stay exactly comparable; "
                             "k in {2, 3}"]
